@@ -11,6 +11,7 @@
    unbounded recursion of the code (frame reassembly) recurses on the input. *)
 From Coq Require Import List NArith ZArith.
 From Cedar Require Import Lib.Bytes gen.Consts Model.Msg Model.Decode Model.Sinful Model.Version gen.FactsC13 Proofs.C13 Proofs.C13ad Proofs.C13raw Proofs.C13sinful Proofs.C13version Proofs.C13sites.
+From Cedar Require Import Model.Addr Proofs.C13addr.
 Import ListNotations.
 Local Open Scope N_scope.
 
@@ -271,3 +272,70 @@ Theorem C13_handshake_readers_bounded :
   (forall r, In r required_sites -> present r = true).
 Proof. exact handshake_readers_bounded. Qed.
 Print Assumptions C13_handshake_readers_bounded.
+
+(* ---- addresses.ParseHTCondorAddress / IsValidSharedPortID, ccb.SplitBrokerList,
+        ccb.splitFlatEntryAndRoute, ccb.ContactString (Model/Addr.v) ------------------------- *)
+(* For ANY byte string: no slice expression of ParseHTCondorAddress goes out of range (the
+   result is never None); the server address and the shared-port id are disjoint pieces of
+   the input; an id is reported only together with IsSharedPort; and the id contains neither
+   '&' nor '?' (so re-rendering "<server?sock=id>" cannot inject a parameter).  The function
+   has no error result: IsSharedPort may be true with an EMPTY id ("sock=?x",
+   Addr.addr_empty_id_example) -- callers validate with IsValidSharedPortID. *)
+Theorem C13_htcondor_address_total_bounded :
+  forall a : bytes, exists i, parse_htcondor_address a = Some i /\
+    lenN (sp_server i) + lenN (sp_id i) <= lenN a /\
+    (sp_is i = false -> sp_id i = []) /\
+    (forall x, In x (sp_id i) -> byte_eqb x x26 = false /\ byte_eqb x x3f = false).
+Proof. exact parse_htcondor_address_spec. Qed.
+Print Assumptions C13_htcondor_address_total_bounded.
+
+(* An id accepted by IsValidSharedPortID is non-empty and every BYTE of it lies in '-'..'z'
+   and is not '/': no NUL, no path separator, no white space, no byte >= 0x80. *)
+Theorem C13_shared_port_id_sound :
+  forall id : bytes, is_valid_shared_port_id id = true ->
+    id <> [] /\ forall x, In x id -> 45 <= b2n x <= 122 /\ b2n x <> 47.
+Proof. exact is_valid_shared_port_id_sound. Qed.
+Print Assumptions C13_shared_port_id_sound.
+
+(* SplitBrokerList: at most (separators + 1) brokers, each non-empty and cut out of the input. *)
+Theorem C13_broker_list_bounded :
+  forall s : bytes,
+    (length (split_broker_list s) <= count_sep is_broker_sep s + 1)%nat /\
+    Forall (fun f => f <> [] /\ lenN f <= lenN s) (split_broker_list s).
+Proof. exact split_broker_list_spec. Qed.
+Print Assumptions C13_broker_list_bounded.
+
+(* splitFlatEntryAndRoute never panics; an accepted contact has a non-empty entry broker, and
+   entry, first id and the re-joined route together are shorter than the input (the '#' that
+   separated entry and id is gone; each further '#' became at most one space). *)
+Theorem C13_flat_contact_total_bounded :
+  forall c : bytes, exists o, split_flat_entry_and_route c = Some o /\
+    forall e i r, o = Some (e, i, r) -> e <> [] /\ lenN e + lenN i + lenN r + 1 <= lenN c.
+Proof. exact split_flat_spec. Qed.
+Print Assumptions C13_flat_contact_total_bounded.
+
+(* Round trip: SplitCCBContact inverts ContactString for every broker address that begins and
+   ends with an ASCII non-space byte and is not itself wrapped in <> (a nested broker
+   "h:1#42" included: the split is on the LAST '#'), and every 64-bit id. *)
+Theorem C13_ccb_contact_round_trip :
+  forall (b : bytes) (n : N),
+    plain_ends b = true -> strip_angle_pair b = Some b ->
+    split_ccb_contact (contact_string b n) = Some (Some (b, dec n)).
+Proof. exact contact_string_round_trip. Qed.
+Print Assumptions C13_ccb_contact_round_trip.
+
+Example C13_addr_example :
+  (* "<10.0.0.1:9618?addrs=x&sock=startd_1&alias=h>" *)
+  option_map (fun i => (sp_server i, sp_id i, sp_is i, is_valid_shared_port_id (sp_id i)))
+    (parse_htcondor_address [x3c; x31; x30; x2e; x30; x2e; x30; x2e; x31; x3a; x39; x36; x31; x38; x3f; x61; x64; x64; x72; x73;
+                             x3d; x78; x26; x73; x6f; x63; x6b; x3d; x73; x74; x61; x72; x74; x64; x5f; x31; x26; x61; x6c;
+                             x69; x61; x73; x3d; x68; x3e])
+  = Some ([x31; x30; x2e; x30; x2e; x30; x2e; x31; x3a; x39; x36; x31; x38], [x73; x74; x61; x72; x74; x64; x5f; x31], true, true)
+  /\ (* " <h:1> #7# 8 ##9 " : entry h:1, id 7, route "8 9" *)
+  split_flat_entry_and_route [x20; x3c; x68; x3a; x31; x3e; x20; x23; x37; x23; x20; x38; x20; x23; x23; x39; x20]
+  = Some (Some ([x68; x3a; x31], [x37], [x38; x20; x39]))
+  /\ (* ContactString("h:1#42", 17) = "h:1#42#17" and back *)
+  contact_string [x68; x3a; x31; x23; x34; x32] 17 = [x68; x3a; x31; x23; x34; x32; x23; x31; x37]
+  /\ plain_ends [x68; x3a; x31; x23; x34; x32] = true
+  /\ split_broker_list [x61; x2c; x20; x62; x0a; x2c; x63] = [[x61]; [x62]; [x63]].
+Proof. repeat split; vm_compute; reflexivity. Qed.
